@@ -29,6 +29,7 @@ func init() {
 		out["typecache"] = typeCacheFacts(repo)
 		out["builders"] = builderFacts(repo)
 		out["globalwrites"] = globalWriteFacts(repo)
+		out["errdrops"] = errDropFacts(repo)
 		enc := json.NewEncoder(os.Stdout)
 		enc.SetIndent("", " ")
 		enc.Encode(out)
@@ -533,6 +534,86 @@ func globalWriteFacts(repo string) []map[string]interface{} {
 					return true
 				})
 			}
+		}
+	}
+	return out
+}
+
+
+// errDropFacts: in package asm every statement INSIDE A LOOP that assigns the variable `err` (`x, err := f()`, `x, err = f()`) must be followed
+// IMMEDIATELY, in the same block, by `if err != nil { ... }` (or be the init statement of such an if): otherwise a later assignment
+// may overwrite the error and a faulty input would be accepted. Lists the assignments for which this is not the case.
+func errDropFacts(repo string) []map[string]interface{} {
+	fset, files := parseDir(repo, "asm")
+	var out []map[string]interface{}
+	assignsErr := func(st ast.Stmt) bool {
+		as, ok := st.(*ast.AssignStmt)
+		if !ok {
+			return false
+		}
+		for _, l := range as.Lhs {
+			if id, ok := l.(*ast.Ident); ok && id.Name == "err" {
+				return true
+			}
+		}
+		return false
+	}
+	checksErr := func(st ast.Stmt) bool {
+		is, ok := st.(*ast.IfStmt)
+		if !ok {
+			return false
+		}
+		c := strings.Join(strings.Fields(src(fset, is.Cond)), " ")
+		return strings.Contains(c, "err != nil")
+	}
+	inLoop := 0
+	var walkBlock func(fn string, list []ast.Stmt)
+	var walkStmt func(fn string, st ast.Stmt)
+	walkBlock = func(fn string, list []ast.Stmt) {
+		for i, st := range list {
+			if inLoop > 0 && assignsErr(st) {
+				if i+1 >= len(list) || !checksErr(list[i+1]) {
+					out = append(out, map[string]interface{}{"func": fn, "stmt": src(fset, st), "line": fset.Position(st.Pos()).Line, "file": filepath.Base(fset.Position(st.Pos()).Filename)})
+				}
+			}
+			walkStmt(fn, st)
+		}
+	}
+	walkStmt = func(fn string, st ast.Stmt) {
+		switch x := st.(type) {
+		case *ast.BlockStmt:
+			walkBlock(fn, x.List)
+		case *ast.IfStmt:
+			// `if x, err := f(); err != nil {` is fine by construction
+			walkBlock(fn, x.Body.List)
+			if x.Else != nil {
+				walkStmt(fn, x.Else)
+			}
+		case *ast.ForStmt:
+			inLoop++
+			walkBlock(fn, x.Body.List)
+			inLoop--
+		case *ast.RangeStmt:
+			inLoop++
+			walkBlock(fn, x.Body.List)
+			inLoop--
+		case *ast.SwitchStmt:
+			walkBlock(fn, x.Body.List)
+		case *ast.TypeSwitchStmt:
+			walkBlock(fn, x.Body.List)
+		case *ast.CaseClause:
+			walkBlock(fn, x.Body)
+		case *ast.LabeledStmt:
+			walkStmt(fn, x.Stmt)
+		}
+	}
+	for _, f := range files {
+		for _, d := range f.Decls {
+			fd, ok := d.(*ast.FuncDecl)
+			if !ok || fd.Body == nil {
+				continue
+			}
+			walkBlock(fd.Name.Name, fd.Body.List)
 		}
 	}
 	return out
